@@ -30,6 +30,8 @@ fn shim_zw_write_all<W: Write + io::Seek>(w: &mut ZipWriter<W>, buf: &[u8]) -> (
         r is Ok && old(w).writing_to_file && !old(w).writing_to_extra_field && gzw_plain(old(w).inner) ==> gzw_plain(final(w).inner)
             && (gzw_plain_sink(old(w).inner).g_dev() ==> wr_n(&gzw_plain_sink(old(w).inner), &gzw_plain_sink(final(w).inner), true, buf@)),
         r is Ok ==> gzw_method(final(w).inner) == gzw_method(old(w).inner),
+        // C01/C02/C09: the content statement of the open entry survives any number of partial writes
+        zw_data_ok(old(w)) && (r is Ok || zw_err_keeps_content(old(w))) ==> zw_data_ok(final(w)),
 {
     let ghost all = buf@;
     let mut buf = buf;
@@ -65,6 +67,7 @@ fn shim_zw_write_all<W: Write + io::Seek>(w: &mut ZipWriter<W>, buf: &[u8]) -> (
             old(w).writing_to_file && !old(w).writing_to_extra_field && gzw_plain(old(w).inner) ==> gzw_plain(w.inner)
                 && (gzw_plain_sink(old(w).inner).g_dev() ==> wr_n(&gzw_plain_sink(old(w).inner), &gzw_plain_sink(w.inner), true, all.subrange(0, all.len() - buf@.len()))),
             (!old(w).writing_to_file || old(w).inner is Closed) ==> buf@.len() == all.len(),
+            zw_data_ok(old(w)) ==> zw_data_ok(w),
         decreases buf@.len(),
     {
         let ghost before = buf@;
@@ -114,6 +117,7 @@ fn shim_zw_write_u16<W: Write + io::Seek>(w: &mut ZipWriter<W>, v: u16) -> (r: i
             && final(w).files@.last().large_file == old(w).files@.last().large_file
             && final(w).inner == old(w).inner && final(w).stats.bytes_written == old(w).stats.bytes_written
             && final(w).stats.hasher@ == old(w).stats.hasher@ && final(w).stats.start == old(w).stats.start,
+        zw_data_ok(old(w)) && (r is Ok || zw_err_keeps_content(old(w))) ==> zw_data_ok(final(w)),
 {
     let buf = shim_le16_array(v);
     proof { broadcast use group_le_len; }
